@@ -24,7 +24,7 @@ CONSTANTS Specs, CtxList       \* CtxList: the sequence stored under the from_co
 VARIABLES sp, phase, seqs, k, out, err
 vars == <<sp, phase, seqs, k, out, err>>
 
-NameOrder == <<"t", "u">>
+NameOrder == <<"t", "u", "v">>
 NIdx(n) == CHOOSE i \in 1..Len(NameOrder) : NameOrder[i] = n
 SortedNames(S) == LET f[n \in 0..Len(NameOrder)] == IF n = 0 THEN <<>>
                           ELSE IF NameOrder[n] \in S THEN Append(f[n - 1], NameOrder[n]) ELSE f[n - 1]
@@ -72,6 +72,8 @@ EvalExpr(e, asg) == CASE e = "t" -> asg["t"]
                       [] e = "t+u" -> asg["t"] + asg["u"]
                       [] e = "t*u" -> asg["t"] * asg["u"]
                       [] e = "u-t" -> asg["u"] - asg["t"]
+                      [] e = "t+u+v" -> asg["t"] + asg["u"] + asg["v"]
+                      [] e = "t*u-v" -> asg["t"] * asg["u"] - asg["v"]
 BVal == CASE sp.bplace = "config" -> 5 [] sp.bplace = "context" -> 7 [] OTHER -> 1
 \* computed-by-expression > node parameters > defaults
 Element(asg) == 10 * EvalExpr(sp.expr, asg) + BVal + (IF sp.kind = "src" THEN 0 ELSE 1000)
